@@ -153,9 +153,11 @@ def check_case(ctx, case):
             cands.append((f"LocatedDifferential({er}, {pr.value})", lambda: sm.LocatedDifferential(S.build(s), sm.Point(**pl))))
         pt = sm.Point(**pd)
         roundtrip(ctx, pt, f"point {S.show_point(pd)}", None, is_expr=False)
-        expect = "Point(" + ", ".join(f"{k}={v!r}" for k, v in pd.items()) + ")"
-        if repr(pt) != expect or str(pt) != expect:
-            ctx.violation("point_prints_unexpectedly", f"Point built as {expect} prints as {repr(pt)!r} / {str(pt)!r}")
+        for txt in (repr(pt), str(pt)):
+            # the constructor call that builds it: a Point(...) call (how coordinates are ordered or formatted is
+            # left to the round trip above) that names every coordinate
+            if not (txt.startswith("Point(") and txt.endswith(")") and all((k + "=") in txt for k in pd)):
+                ctx.violation("point_prints_unexpectedly", f"Point with coordinates {sorted(pd)} prints as {txt[:200]!r}")
         ctx.count("points_printed")
     for expect, mk in cands:
         o = M.call(mk, numeric=False)
@@ -165,8 +167,15 @@ def check_case(ctx, case):
         for fn in (repr, str):
             t = M.call(lambda: fn(o.value), numeric=False)
             ctx.evaluation()
-            if t.kind != "obj" or t.value != expect:
-                ctx.violation("derivative_object_prints_unexpectedly", f"expected {expect[:300]!r}, got {t.value if t.kind == 'obj' else t.brief()!r}")
+            cls_name = expect.split("(", 1)[0]
+            head = f"{cls_name}({er}"
+            ok_form = t.kind == "obj" and isinstance(t.value, str) and t.value.startswith(head) and t.value.endswith(")")
+            if ok_form and cls_name in ("Derivative", "Differential") and t.value != head + ")":
+                ok_form = False
+            if not ok_form:
+                # "print as their constructor applied to the printed expression": the expression part is pinned,
+                # how the variable / point argument is spelled is left to the round trip below
+                ctx.violation("derivative_object_prints_unexpectedly", f"expected {head[:300]!r}...), got {t.value if t.kind == 'obj' else t.brief()!r}")
         roundtrip(ctx, o.value, f"derivative object {expect[:200]}", None, is_expr=False)
     if not ctx.quiet and ctx.rng.random() < 0.002:
         ctx.sample({"spec": S.show(s)[:200], "repr": er[:200]})
